@@ -11,6 +11,8 @@ pub fn get_keys_by_filter(
     filter: &dyn Fn(&String, &Value) -> bool,
 ) -> Vec<(String, Value)> {
     let mut keys_to_update = vec![];
+    #[cfg(nun_verif)]
+    crate::verif::yield_point("get_keys_by_filter.map.read");
     {
         let data = db.map.read().expect("Error getting the db.map.read");
         data.iter()
